@@ -148,6 +148,7 @@ def comprehension(ex, node, kind, env=None):
         ex.env = inner
         nhyps = len(ex.hyps)
         ndec = ex.dpos
+        ex.in_comprehension += 1
         rng = getattr(src, "range", None) if isinstance(g.target, ast.Name) else None
         if rng is not None:
             # the loop variable itself is the bound variable: lo <= v < hi
@@ -166,10 +167,14 @@ def comprehension(ex, node, kind, env=None):
         body_facts = ex.hyps[nhyps + 1:]
         range_fact = ex.hyps[nhyps]
         del ex.hyps[nhyps:]
+        for f in [f for f in body_facts if f.get_id() in ex.fresh_facts]:
+            ex.assume(f, fresh=True)
+        body_facts = [f for f in body_facts if f.get_id() not in ex.fresh_facts]
         if body_facts:
             bv = v if rng is not None else k
             ex.assume(V.qforall([bv], z3.Implies(range_fact, z3.And(*body_facts))))
     finally:
+        ex.in_comprehension = max(0, ex.in_comprehension - 1)
         ex.env = saved
     shape = ex.shape_of(elt)
     if rng is not None:
@@ -194,7 +199,15 @@ def comprehension(ex, node, kind, env=None):
         return r
     if not conds:
         terms = flatten(shape, elt)
-        r = mk_seq(shape, [z3.Lambda([k], t) for t in terms], src.n)
+        # pointwise map as defined arrays:  m[k] == elt(k); usable from the result's side and
+        # from the source's side (alternative patterns)
+        src_pats = [z3.Select(a, k) for a in arrs_of(src) if z3.is_const(a)]
+        arrs = []
+        for t in terms:
+            m = z3.Const(fresh_name("comp"), z3.ArraySort(z3.IntSort(), t.sort()))
+            ex.assume(V.qforall([k], z3.Select(m, k) == t, patterns=[z3.Select(m, k)] + src_pats))
+            arrs.append(m)
+        r = mk_seq(shape, arrs, src.n)
         if kind == "set":
             return seq_to_set(ex, r)
         return r
@@ -213,7 +226,63 @@ def comprehension(ex, node, kind, env=None):
 
 
 def dict_comprehension(ex, node):
-    raise Unsupported("dict comprehension (needs a contract-level model)")
+    """{K: V for target in S}: domain = the keys produced; for duplicate keys the last
+    value wins.  The result keeps S's order when S is the key sequence of a dict and K is
+    the loop variable (keys are then distinct)."""
+    from .engine import Env
+
+    if len(node.generators) != 1 or node.generators[0].ifs:
+        raise Unsupported("dict comprehension with several generators or a filter")
+    g = node.generators[0]
+    src_val = ex.eval(g.iter)
+    src = ex.materialize(to_seq(ex, src_val, node))
+    k = z3.Const(fresh_name("dk"), z3.IntSort())
+    saved = ex.env
+    ex.env = Env(parent=saved)
+    nhyps, ndec = len(ex.hyps), ex.dpos
+    ex.in_comprehension += 1
+    try:
+        ex.assume(z3.And(k >= 0, k < src.n))
+        ex.assign(g.target, src.get(k))
+        key = ex.eval(node.key)
+        val = ex.eval(node.value)
+        if ex.dpos != ndec:
+            raise Unsupported("dict comprehension body branches on symbolic data")
+        body_facts = ex.hyps[nhyps + 1:]
+        range_fact = ex.hyps[nhyps]
+        del ex.hyps[nhyps:]
+        for f in [f for f in body_facts if f.get_id() in ex.fresh_facts]:
+            ex.assume(f, fresh=True)
+        body_facts = [f for f in body_facts if f.get_id() not in ex.fresh_facts]
+        if body_facts:
+            ex.assume(V.qforall([k], z3.Implies(range_fact, z3.And(*body_facts))))
+    finally:
+        ex.in_comprehension -= 1
+        ex.env = saved
+    kshape, vshape = ex.shape_of(key), ex.shape_of(val)
+    (kt,) = flatten(kshape, key)
+    vts = flatten(vshape, val)
+    src_pats = [z3.Select(a, k) for a in arrs_of(src) if z3.is_const(a)]
+    KA = z3.Const(fresh_name("dc.keys"), z3.ArraySort(z3.IntSort(), kt.sort()))
+    ex.assume(V.qforall([k], z3.Select(KA, k) == kt, patterns=[z3.Select(KA, k)] + src_pats))
+    keyseq = SeqV(kshape, KA, src.n)
+    dom = define_set(ex, kshape, lambda x: ex.seq_mem(keyseq, x), name="dc.dom")
+    x = z3.Const(fresh_name("x"), kt.sort())
+    ex.assume(V.qforall([x], ex.seq_mem(keyseq, x) == z3.Select(dom.arr, x), patterns=[ex.seq_mem(keyseq, x)]))
+    # value of a key: the value produced at (the last) one of its occurrences.  Stated with an
+    # occurrence index function; "some occurrence" is weaker than Python's "last" (hence sound).
+    occ = z3.Function(fresh_name("dc.occ"), kt.sort(), z3.IntSort())
+    vals = []
+    for i, vt in enumerate(vts):
+        VA = z3.Const(fresh_name(f"dc.val{i}"), z3.ArraySort(kt.sort(), vt.sort()))
+        VT = z3.Const(fresh_name(f"dc.src{i}"), z3.ArraySort(z3.IntSort(), vt.sort()))
+        ex.assume(V.qforall([k], z3.Select(VT, k) == vt, patterns=[z3.Select(VT, k)] + src_pats))
+        ex.assume(V.qforall([x], z3.Implies(z3.Select(dom.arr, x), z3.And(occ(x) >= 0, occ(x) < src.n, z3.Select(KA, occ(x)) == x, z3.Select(VA, x) == z3.Select(VT, occ(x)))), patterns=[z3.Select(dom.arr, x), z3.Select(VA, x)]))
+        vals.append(VA)
+    ordered = None
+    if isinstance(src_val, MapV) and src_val.keys is not None and z3.simplify(kt == z3.Select(arrs_of(src)[0], k)).eq(z3.BoolVal(True)):
+        ordered = src_val.keys
+    return MapV(kshape, vshape, dom.arr, vals if len(vals) > 1 else vals[0], ordered)
 
 
 def mk_range(ex, args):
@@ -327,8 +396,8 @@ def call_builtin(ex, name, args, kw, node):
         return r
     if name == "isinstance":
         x, c = args
-        classes = [c] if isinstance(c, ClassV) else list(c.items)
-        names = [k.name for k in classes]
+        classes = list(c.items) if isinstance(c, Tup) else [c]
+        names = [k.name[8:] if isinstance(k, FnV) and k.name.startswith("builtin:") else k.name for k in classes]
         return ex.prop.isinstance_formula(ex, x, names)
     if name in ("sorted",):
         (x,) = args
